@@ -29,6 +29,7 @@ func init() {
 				ruleDupCheck(c, "R2", inst)
 			}
 			ruleAddErrorNeverDropped(c, "R3")
+			ruleSummaryIsNotLiveness(c, "R4")
 		},
 	})
 	register(&Spec{
